@@ -66,9 +66,15 @@ RECURSIVE SubscribeAll(_, _)
 SubscribeAll(r, hs) ==
   IF hs = <<>> THEN r
   ELSE LET x == Subscribe(r.s, Head(hs)) IN SubscribeAll(Mk(x.s, [x.re EXCEPT !.out = r.re.out \o x.re.out]), Tail(hs))
+\* a reply delivered by the transport from inside send() (in-process router): the API step and the reply are one step
+WithSync(r1) ==
+  IF E.sync.t = "none" \/ r1.re.exc # "" THEN r1
+  ELSE LET r2 == Rx(r1.s, E.sync, U0, "value") IN
+       Mk(r2.s, [r2.re EXCEPT !.out = r1.re.out \o r2.re.out, !.done = r1.re.done \o r2.re.done])
+AcceptSync(r0) == Accept(WithSync(r0))
 TApi ==
   /\ IsEvent("api")
-  /\ Accept(CASE E.name \in {"call", "publish"} /\ E.bad # "" ->
+  /\ AcceptSync(CASE E.name \in {"call", "publish"} /\ E.bad # "" ->
                    RequestFails(s, IF E.bad = "ser" THEN "SerializationError" ELSE "PayloadExceededError")
               [] E.name = "call" -> Call(s, E.progress)
               [] E.name = "cancel" -> CancelCall(s, E.req)
